@@ -1102,6 +1102,24 @@ class Engine(object):
                 )
                 outs.append((s, VInt(r)))
             return outs
+        if (
+            isinstance(f, ast.Name) and f.id == "any" and len(e.args) == 1 and not e.keywords
+            and isinstance(e.args[0], ast.Call) and isinstance(e.args[0].func, ast.Name) and e.args[0].func.id == "filter"
+            and len(e.args[0].args) == 2 and isinstance(e.args[0].args[0], ast.Attribute)
+            and e.args[0].args[0].attr in ("startswith", "endswith")
+        ):
+            # idiom: any(filter(s.startswith, CONSTANT_SET_OF_NON_EMPTY_STRINGS)) -- s starts with one of them
+            meth = e.args[0].args[0]
+            outs = []
+            for s, sv in self.eval(meth.value, st):
+                for s2, cs in self.eval(e.args[0].args[1], s):
+                    if isinstance(sv, VStr) and isinstance(cs, VPy) and isinstance(cs.obj, (frozenset, set, tuple, list)) and cs.obj and all(isinstance(x, str) and x for x in cs.obj):
+                        op = z3.PrefixOf if meth.attr == "startswith" else z3.SuffixOf
+                        outs.append((s2, VBool(z3.Or(*[op(z3.StringVal(x), sv.z) for x in sorted(cs.obj)]))))
+                        self.assumptions.add("stdlib idiom spec: any(filter(s.startswith, C)) for a constant collection C of non-empty strings is the disjunction of s.startswith(c)")
+                    else:
+                        outs.append((s2, self.abstract_call(e, [sv], s2, "any(filter(...)) over a non-constant collection")))
+            return outs
         # ---- the deque(map(f, xs), maxlen=0) idiom is handled at statement level
         for s, fv in self.eval(f, st):
             return self.call_value(fv, e, s)
@@ -2410,7 +2428,8 @@ class Contract(object):
     """Sidecar contract of one real function (DESIGN §2.1 'Contract file format')"""
 
     def __init__(self, qual, params=None, requires=(), ensures=(), modifies=(), result="opaque", loops=None,
-                 bind=None, closure=None, local_kinds=None, decorators=None, pure_results=None, trusted=None, src=None, deterministic=False, paths=None, block=None):
+                 bind=None, closure=None, local_kinds=None, decorators=None, pure_results=None, trusted=None, src=None, deterministic=False, paths=None, block=None,
+                 block_exit=None):
         self.qual = qual
         self.params = params or {}
         self.requires, self.ensures, self.modifies = list(requires), list(ensures), list(modifies)
@@ -2425,6 +2444,7 @@ class Contract(object):
         self.deterministic = deterministic
         self.paths = paths or {}
         self.block = block
+        self.block_exit = block_exit
         self.src = src or qual.split("#")[0]
 
     def fnode(self):
@@ -2526,8 +2546,10 @@ def _engine_verify_block(self, contract):
                     txts = [ast.unparse(s_) for s_ in stmts]
                     a_ = next((i_ for i_, t_ in enumerate(txts) if t_.startswith(contract.block[0])), None)
                     b_ = None if a_ is None else next((i_ for i_ in range(a_, len(txts)) if txts[i_].startswith(contract.block[1])), None)
-                    if len(contract.block) > 2 and contract.block[2] == "before" and b_ is not None:
+                    if len(contract.block) > 2 and contract.block[2] in ("before", "between") and b_ is not None:
                         b_ -= 1  # up to, excluding, the statement that starts with `last`
+                    if len(contract.block) > 2 and contract.block[2] == "between" and a_ is not None:
+                        a_ += 1  # strictly after the statement that starts with `first`
                     sel = stmts[a_:b_ + 1] if b_ is not None and b_ >= a_ else []
                 else:
                     sel = [s_ for s_ in stmts if contract.block(ast.unparse(s_))]
@@ -2579,7 +2601,19 @@ def _engine_verify_block(self, contract):
     if not self.feasible(st):
         raise OutOfSubset("requires of block %s is unsatisfiable" % contract.qual)
     ends = 0
+    must_return = getattr(contract, "block_exit", None) == "return"
     for s, (kind, val) in self.exec_block(chosen, st):
+        if must_return:
+            # the block has to leave the function by `return` on every path; `result` is the returned value
+            if kind == NORMAL:
+                ends += 1
+                self.oblige(s, "block.returns", z3.BoolVal(False), 0)
+            elif kind == RETURN:
+                ends += 1
+                s.bind("result", val)
+                for i, en in enumerate(contract.ensures):
+                    self.oblige(s, "block.ensures[%d]" % i, self.eval_spec(en, s), 0)
+            continue
         if kind != NORMAL:
             continue
         ends += 1
